@@ -72,6 +72,7 @@ func C02(r *core.Run) {
 	rule0210(r, "C02")
 	rule0211(r)
 	rule0112(r, "C02")
+	rule0113(r)
 }
 
 // handler exceptions for R02.1, one reason each
